@@ -337,10 +337,7 @@ fn eval_step_expr(
 ) -> error::Result<Vec<dom::XmlNode>> {
     match step {
         expr::Step::Current => Ok(vec![node]),
-        expr::Step::Parent => match node {
-            dom::XmlNode::Document(_) => Ok(vec![]),
-            _ => Ok(vec![node.parent_node().unwrap()]),
-        },
+        expr::Step::Parent => Ok(parent(node)),
         expr::Step::Test(axis, test, predicate) => {
             eval_axis_node_test(axis, test, predicate, node, context)
         }
@@ -369,7 +366,7 @@ fn eval_axis_node_test(
             expr::AxisName::Following => following(node),
             expr::AxisName::FollowingSibling => following_sibling(node),
             expr::AxisName::Namespace => namespace(node),
-            expr::AxisName::Parent => vec![node.parent_node().unwrap()],
+            expr::AxisName::Parent => parent(node),
             expr::AxisName::Preceding => preceding(node),
             expr::AxisName::PrecedingSibling => preceding_sibling(node),
             expr::AxisName::Current => vec![node],
@@ -515,10 +512,20 @@ fn eval_func_expr(
 
 // -----------------------------------------------------------------------------------------------
 
+/// The parent axis: the parent of an attribute is the element that bears it; a document
+/// (and a node that is not in a tree) has none.
+fn parent(node: dom::XmlNode) -> Vec<dom::XmlNode> {
+    let parent = match &node {
+        dom::XmlNode::Attribute(v) => v.owner_element().map(|e| e.as_node()),
+        _ => node.parent_node(),
+    };
+    parent.into_iter().collect()
+}
+
 fn ancestor(node: dom::XmlNode) -> Vec<dom::XmlNode> {
     let mut nodes = vec![];
 
-    let mut parent = node.parent_node();
+    let mut parent = parent(node).pop();
     while let Some(p) = parent {
         nodes.push(p.clone());
         parent = p.parent_node();
